@@ -1030,8 +1030,125 @@ def real_vs(c):
     return ["ret", str(int(root)), farr(tv), iarr(tn)]
 
 
+# ---- viewshed: event geometry, event list, radial sweep
+def gen_vs_rowcol(rng):
+    return dict(t=rng.choice([1, -1, 1, -1, 0]), r=rng.randint(0, 4), c=rng.randint(0, 4), vr=rng.randint(0, 4),
+                vc=rng.randint(0, 4))
+
+
+def line_vs_rowcol(c):
+    return (f"i.event_type={c['t']} i.event_row={c['r']} i.event_col={c['c']} "
+            f"i.viewpoint_row={c['vr']} i.viewpoint_col={c['vc']}")
+
+
+def real_vs_rowcol(c):
+    y, x = vs_mod()._calculate_event_row_col(c["t"], c["r"], c["c"], c["vr"], c["vc"])
+    return ["ret", str(int(y)), str(int(x))]
+
+
+def real_vs_pos(c):
+    y, x = vs_mod()._calc_event_pos(c["t"], c["r"], c["c"], c["vr"], c["vc"])
+    return ["ret", fval(y), fval(x)]
+
+
+def gen_vs_angle(rng):
+    g = lambda: float(rng.randint(-8, 8)) / 2
+    vx, vy = rng.randint(-3, 3), rng.randint(-3, 3)
+    ex, ey = (float(vx), g()) if rng.random() < 0.2 else (g(), float(vy)) if rng.random() < 0.25 else (g(), g())
+    return dict(ex=ex, ey=ey, vx=vx, vy=vy)
+
+
+def line_vs_angle(c):
+    return f"f.event_x={fval(c['ex'])} f.event_y={fval(c['ey'])} i.viewpoint_x={c['vx']} i.viewpoint_y={c['vy']}"
+
+
+def real_vs_angle(c):
+    return ["ret", fval(vs_mod()._calculate_angle(c["ex"], c["ey"], c["vx"], c["vy"]))]
+
+
+def gen_vs_vang(rng):
+    return dict(ve=float(rng.randint(-6, 6)) / 2, d=float(rng.randint(1, 40)) / 4, e=float(rng.randint(-6, 6)) / 2)
+
+
+def line_vs_vang(c):
+    return f"f.viewpoint_elev={fval(c['ve'])} f.distance_to_viewpoint={fval(c['d'])} f.elev={fval(c['e'])}"
+
+
+def real_vs_vang(c):
+    return ["ret", fval(vs_mod()._get_vertical_ang(c["ve"], c["d"], c["e"]))]
+
+
+def vs_terrain(rng):
+    h, w = rng.randint(1, 4), rng.randint(1, 5)
+    if h * w == 1:
+        w = 2
+    kind = rng.random()
+    pool = [0.0, 1.0, 2.0, 3.0, 5.0, 0.5] if kind < 0.6 else [0.0, 0.0, 1.0] if kind < 0.85 else [0.0, 1.0, 2.0, NAN]
+    t = np.array(pick_vals(rng, pool, h * w), dtype=np.float64).reshape(h, w)
+    return t, rng.randrange(h), rng.randrange(w)
+
+
+def gen_vs_init(rng):
+    t, vr, vc = vs_terrain(rng)
+    return dict(raster=t.tolist(), vr=vr, vc=vc)
+
+
+def vs_init_arrays(c):
+    t = np.array(c["raster"], dtype=np.float64)
+    h, w = t.shape
+    ev = np.zeros((3 * (h * w - 1), 7), dtype=np.float64)
+    data = np.zeros((3, w), dtype=np.float64)
+    vis = np.full((h, w), -1.0)
+    return t, ev, data, vis
+
+
+def line_vs_init(c):
+    t, ev, data, vis = vs_init_arrays(c)
+    return (f"af.event_list={farr(ev)} af.raster={farr(t)} i.vp_row={c['vr']} i.vp_col={c['vc']} "
+            f"af.data={farr(data)} af.visibility_grid={farr(vis)}")
+
+
+def real_vs_init(c):
+    t, ev, data, vis = vs_init_arrays(c)
+    vs_mod()._init_event_list(ev, t, c["vr"], c["vc"], data, vis)
+    return ["*", farr(ev), farr(t), farr(data), farr(vis)]
+
+
+def gen_vs_sweep(rng):
+    t, vr, vc = vs_terrain(rng)
+    return dict(raster=t.tolist(), vr=vr, vc=vc, obs=rng.choice([0.0, 0.0, 1.0, 2.5, -1.0]),
+                tgt=rng.choice([0.0, 0.0, 0.5, 1.0]), ew=rng.choice([1.0, 1.0, 2.0, 0.5]), ns=rng.choice([1.0, 1.0, 3.0]))
+
+
+def vs_sweep_arrays(c):
+    """the arrays `_viewshed_cpu` hands to the sweep, built with the real event-list routine"""
+    v = vs_mod()
+    t, ev, data, vis = vs_init_arrays(c)
+    v._init_event_list(ev, t, c["vr"], c["vc"], data, vis)
+    ev = ev[np.lexsort((ev[:, v.E_TYPE_ID], ev[:, v.E_ANG_ID]))]
+    rcts = np.array(ev[:, :3], dtype=np.int64)
+    aes = np.array(ev[:, 3:], dtype=np.float64)
+    vp_elev = float(t[c["vr"], c["vc"]]) + c["obs"]
+    return t, rcts, aes, data, vis, vp_elev
+
+
+def line_vs_sweep(c):
+    t, rcts, aes, data, vis, vp_elev = vs_sweep_arrays(c)
+    return (f"af.raster={farr(t)} i.vp_row={c['vr']} i.vp_col={c['vc']} f.vp_elev={fval(vp_elev)} "
+            f"f.vp_target={fval(c['tgt'])} f.ew_res={fval(c['ew'])} f.ns_res={fval(c['ns'])} "
+            f"ai.event_rcts={iarr(rcts)} af.event_aes={farr(aes)} af.data={farr(data)} af.visibility_grid={farr(vis)}")
+
+
+def real_vs_sweep(c):
+    t, rcts, aes, data, vis, vp_elev = vs_sweep_arrays(c)
+    if np.isnan(vp_elev):
+        return ["skip"]
+    out = vs_mod()._viewshed_cpu_sweep(t, c["vr"], c["vc"], vp_elev, c["tgt"], c["ew"], c["ns"], rcts, aes, data, vis)
+    return ["ret", farr(out), farr(t), iarr(rcts), farr(aes), farr(data), farr(vis)]
+
+
 # programs whose numeric results go through libm / float32 rounding: compared within this relative tolerance
-TOL = {"calcDirection": 1e-6, "processNumpy": 1e-6, "applyMean": 1e-6, "applySum": 1e-6, "applyMin": 1e-6,
+TOL = {"vsAngle": 1e-12, "vsVerticalAng": 1e-12, "vsInitEventList": 1e-12, "vsSweep": 1e-9, "calcDirection": 1e-6, "processNumpy": 1e-6, "applyMean": 1e-6, "applySum": 1e-6, "applyMin": 1e-6,
        "applyMax": 1e-6, "applyRange": 1e-6, "applyStd": 2e-6, "applyVar": 2e-6}
 
 SPECS = {
@@ -1058,6 +1175,12 @@ SPECS = {
     "applyRange": (gen_apply, line_apply, real_apply("_calc_range")),
     "applyStd": (gen_apply, line_apply, real_apply("_calc_std")),
     "applyVar": (gen_apply, line_apply, real_apply("_calc_var")),
+    "vsEventRowCol": (gen_vs_rowcol, line_vs_rowcol, real_vs_rowcol),
+    "vsEventPos": (gen_vs_rowcol, line_vs_rowcol, real_vs_pos),
+    "vsAngle": (gen_vs_angle, line_vs_angle, real_vs_angle),
+    "vsVerticalAng": (gen_vs_vang, line_vs_vang, real_vs_vang),
+    "vsInitEventList": (gen_vs_init, line_vs_init, real_vs_init),
+    "vsSweep": (gen_vs_sweep, line_vs_sweep, real_vs_sweep),
     "vsInsert": (gen_vs("insert"), line_vs, real_vs),
     "vsDelete": (gen_vs("delete"), line_vs, real_vs),
     "vsSearch": (gen_vs("search"), line_vs, real_vs),
